@@ -54,8 +54,7 @@ def run(ctx):
     r = ctx.rule("R1", "insert only after the duplicate test; every fire of a request Deferred follows removal of its entry", 6, "A+B")
     cm = ctx.cfg(mk)
     fm = ctx.facts(mk)
-    ins = [n for n in cm.nodes if n.kind == "stmt" and isinstance(n.stmt, ast.Assign) and any(
-        isinstance(t, ast.Subscript) and self_attr(t.value) == "requests" for t in n.stmt.targets)]
+    ins = [n for n, _k, _v in table_stores(ctx, mk, "self.requests")]
     need(len(ins) == 1, "table insertion not found once in makeRequest")
     key = [unparse(t.slice) for t in ins[0].stmt.targets if isinstance(t, ast.Subscript)][0]
     r.check(("%s in self.requests" % key, False) in fm[ins[0].id], "%s#insert-after-duplicate-test" % mk.qname,
